@@ -452,7 +452,41 @@ def r7_stored_only_in_mode_none(ctx):
               "where they used to be refused - and the container does not decode" % "Z/4/E/F", b.loc(), sample={"stored_blocks": stored, "none_edges": sorted(none_edges)})
 
 
+def r8_recorded_size_is_content_size(ctx):
+    """the chunk table's decompressed size is the size of the CONTENT the chunk decodes to. For an encrypted chunk the builder holds two lengths - the
+    caller's data and the inner payload it encrypts (mode byte + compressed data) - and only the first is the decoded size."""
+    rule = "C01.R8"
+    ctx.rule(rule, "BlteBuilder: the size handed to ChunkData::from_compressed for an encrypted chunk derives from the caller's data, not from the inner payload")
+    n = 0
+    for b in ctx.prog.find(self_ty=r"\bBlteBuilder\b", closure=False):
+        if not re.search(r"blte/builder\.rs$", b.file or ""):
+            continue
+        inner = b.calls_matching(r"BlteBuilder::build_inner_payload$")
+        fc = b.calls_matching(r"ChunkData::from_compressed$")
+        if not inner or not fc:
+            continue
+        ctx.saw(b)
+        from .lib import result_local
+        inner_locals = set()
+        for c in inner:
+            inner_locals.add(c.dest[0])
+            inner_locals |= payload_locals(b, c)
+        for c in fc:
+            if len(c.args) < 3 or op_local(c.args[2]) is None:
+                continue
+            n += 1
+            sl = Slice(b, [op_local(c.args[2])], transparent=True)
+            from_inner = bool(sl.locals & inner_locals)
+            from_data = any(1 <= a <= b.argc and "u8" in (b.local_ty(a) or "") for a in sl.args)
+            ctx.check(from_data and not from_inner, rule, [b.id, "recorded-size"], "the recorded size derives from the caller's data",
+                      "%s records the length of the encrypted INNER payload (mode byte + compressed data) as the chunk's decompressed size: the chunk table then "
+                      "states 65 for 64 content bytes, or 33 for 10000 zero bytes compressed inside - it is not the size the chunk decodes to" % ctx._stable(b.id),
+                      c.loc(), sample={"in": b.id, "from_inner_payload": from_inner, "from_data_param": from_data})
+    ctx.floor(rule, n, 2, "ChunkData::from_compressed calls in the encrypting builder methods")
+
+
 def run(ctx):
+    r8_recorded_size_is_content_size(ctx)
     r6_stream_status(ctx)
     r7_stored_only_in_mode_none(ctx)
     r4_relative_positions(ctx)
